@@ -111,8 +111,7 @@ Proof.
   assert (Ha : (0 <= auto_id true (ids c))%Z).
   { unfold auto_id. pose proof (fresh_from_ge (length (ids c)) (Z.of_nat (length (ids c))) (ids c)). lia. }
   destruct seg_id as [z|]; [|inversion H; subst; exact Ha].
-  destruct (Z.eqb z 0); [inversion H; subst; exact Ha|].
-  simpl in H. destruct (memZ z (ids c)); [discriminate|]. inversion H; subst. apply Hz. reflexivity.
+  destruct (memZ z (ids c)); [discriminate|]. inversion H; subst. apply Hz. reflexivity.
 Qed.
 
 (* ---------- operations ---------- *)
